@@ -70,14 +70,14 @@ const (
 )
 
 type TPart struct {
-	Kind   int
-	Lit    string
-	Expr   *Node // interpolation expr / if condition / for collection
-	Then   []TPart
-	Else   []TPart
+	Kind    int
+	Lit     string
+	Expr    *Node // interpolation expr / if condition / for collection
+	Then    []TPart
+	Else    []TPart
 	HasElse bool
-	KeyVar string
-	ValVar string
+	KeyVar  string
+	ValVar  string
 	// Strip flags. For TInterp: [0]=left (${~) [1]=right (~}).
 	// For TIf: [0,1]=if marker, [2,3]=else marker, [4,5]=endif marker.
 	// For TFor: [0,1]=for marker, [4,5]=endfor marker.
@@ -99,7 +99,7 @@ type Node struct {
 	// call
 	Expand bool
 	// for
-	KeyVar, ValVar string
+	KeyVar, ValVar         string
 	Coll, KeyE, ValE, Cond *Node
 	Group                  bool
 	// template
@@ -111,10 +111,10 @@ type Node struct {
 
 func N(k Kind) *Node { return &Node{Kind: k, Ty: cty.DynamicPseudoType} }
 
-func Num(s string) *Node  { return &Node{Kind: KNum, Num: s, Ty: cty.Number} }
-func Bool(b bool) *Node   { return &Node{Kind: KBool, Bool: b, Ty: cty.Bool} }
-func Null() *Node         { return &Node{Kind: KNull, Ty: cty.DynamicPseudoType} }
-func StrLit(s string) *Node { return &Node{Kind: KStr, Str: s, Ty: cty.String} }
+func Num(s string) *Node              { return &Node{Kind: KNum, Num: s, Ty: cty.Number} }
+func Bool(b bool) *Node               { return &Node{Kind: KBool, Bool: b, Ty: cty.Bool} }
+func Null() *Node                     { return &Node{Kind: KNull, Ty: cty.DynamicPseudoType} }
+func StrLit(s string) *Node           { return &Node{Kind: KStr, Str: s, Ty: cty.String} }
 func Var(n string, ty cty.Type) *Node { return &Node{Kind: KVar, Name: n, Ty: ty} }
 
 // Walk visits n and every descendant expression node.
